@@ -30,7 +30,7 @@ ASSUMPTIONS = [
 ]
 REQUIRED = ["target:leaf", "target:item-leaf", "target:dict-entry", "target:list-item", "target:subconfig", "route:setattr",
             "route:setitem", "route:ctor", "route:load_tree", "route:loads", "route:container", "route:inplace", "depth>=2", "raised",
-            "target:include@depth0", "target:include@depth1", "target:include@depth2", "failed-reoffer"]
+            "target:include@depth0", "target:include@depth1", "target:include@depth2", "failed-reoffer", "takeover"]
 LEVEL_TEXT = (
     "Generated schemas x targets x rejected values x routes; the raised exception's type and reference path are "
     "compared with a model path computed from the spec; kills mutants that re-raise the field's own exception, "
@@ -142,7 +142,91 @@ def _nest(path, value):
     return value
 
 
+def exhaustive(tier):
+    """A typed dict / typed list that one configuration holds is taken over by another configuration of the SAME schema
+    at a different path (two items of a list of configurations, two fields of one config type); then an entry / item is
+    rejected in the target. The error must name the target's path."""
+    for place in ("list-items", "configtype-fields", "nested-list-items"):
+        for container in ("dict", "list"):
+            for how in ("assign", "assign-copy"):
+                for route in (("setkey", "update", "setdefault") if container == "dict" else ("append", "insert", "setitem", "extend")):
+                    for src, dst in ((0, 2), (2, 0), (1, 2)):
+                        yield {"mode": "takeover", "place": place, "container": container, "how": how, "route": route, "src": src, "dst": dst}
+
+
+def _takeover_case(case, R):
+    cc = sandbox._state["cc"]
+    item = cc.Schema()
+    item.name = cc.StringField(default="n")
+    item.limits = cc.DictField(cc.StringField(), cc.IntField(max=10))
+    item.ports = cc.ListField(cc.IntField(max=10))
+    schema = cc.Schema()
+    place = case["place"]
+    if place == "configtype-fields":
+        T = cc.make_type(item, "Node", module=__name__)
+        schema.primary = T
+        schema.backup = T
+        schema.spare = T
+        cfg = schema()
+        nodes = [cfg.primary, cfg.backup, cfg.spare]
+        paths = ["primary", "backup", "spare"]
+    elif place == "list-items":
+        schema.servers = cc.ListField(item)
+        cfg = schema()
+        cfg.servers = [{"name": "a"}, {"name": "b"}, {"name": "c"}]
+        nodes = list(cfg.servers)
+        paths = ["servers[%d]" % i for i in range(3)]
+    else:
+        schema.dc.east.servers = cc.ListField(item)
+        cfg = schema()
+        cfg.dc.east.servers = [{"name": "a"}, {"name": "b"}, {"name": "c"}]
+        nodes = list(cfg.dc.east.servers)
+        paths = ["dc.east.servers[%d]" % i for i in range(3)]
+    src, dst = nodes[case["src"]], nodes[case["dst"]]
+    R.label("takeover")
+    R.nontrivial = True
+    if case["container"] == "dict":
+        src.limits = {"cpu": 1, "mem": 2}
+        dst.limits = src.limits if case["how"] == "assign" else src.limits.copy()
+        target = dst.limits
+        want = "%s.limits[mem]" % paths[case["dst"]]
+        action = {"setkey": lambda: target.__setitem__("mem", 99), "update": lambda: target.update({"mem": 99}),
+                  "setdefault": lambda: target.setdefault("mem2", 99)}[case["route"]]
+        if case["route"] == "setdefault":
+            want = "%s.limits[mem2]" % paths[case["dst"]]
+    else:
+        src.ports = [1, 2]
+        dst.ports = src.ports if case["how"] == "assign" else src.ports.copy()
+        target = dst.ports
+        want = "%s.ports" % paths[case["dst"]]
+        action = {"append": lambda: target.append(99), "insert": lambda: target.insert(0, 99), "setitem": lambda: target.__setitem__(0, 99),
+                  "extend": lambda: target.extend([3, 99])}[case["route"]]
+    try:
+        action()
+        err = None
+    except Exception as exc:
+        err = exc
+    site = "takeover:%s:%s" % (case["container"], case["route"])
+    if not R.check(err is not None, "must-raise", site, "a value above the item field's maximum was accepted"):
+        return
+    if case["container"] == "list":
+        # in-place edits of a typed scalar list are not among the routes the statement lists: only a path, when the
+        # library does give one, must not point into another configuration
+        if isinstance(err, cc.ValidationError):
+            got = err.ref_path
+            R.check(got.startswith(want), "path", site, lambda: "rejected item in %s: error names %r" % (want, got))
+        return
+    if not R.check(isinstance(err, cc.ValidationError), "type", site + ":" + type(err).__name__, lambda: "raised %r" % (err,)):
+        return
+    got = err.ref_path
+    R.check(got == want, "path", site, lambda: "rejected entry in the dict that %s took over from %s: error names %r, the offending entry is %r" % (
+        paths[case["dst"]], paths[case["src"]], got, want))
+    R.check(str(err).startswith(got), "text", "starts-with-path", lambda: "message %r does not start with the path %r" % (str(err)[:120], got))
+
+
 def run_case(case, R):
+    if case.get("mode") == "takeover":
+        return _takeover_case(case, R)
     cc = sandbox._state["cc"]
     spec = case["spec"]
     if case["target"] is None:
